@@ -68,3 +68,11 @@ Theorem C07_circumscribed_tangent : forall (n_sides : Z) (radius : R) pts (i : n
   let a := nth i pts (Pt2 0 0)%R in let b := nth (if Nat.eqb i (Z.to_nat n_sides - 1) then 0 else i + 1)%nat pts (Pt2 0 0)%R in
   (cross2 a b * cross2 a b = radius * radius * pt2_len2 (pt2_sub b a))%R.
 Proof. exact circumscribed_tangent. Qed.
+(* the rounded rectangle (un-centred): 4*(segments+1) points, all inside [0,w] x [0,h], touching all four sides at the
+   ends of its corner arcs; every arc point is the corner start turned clockwise by at most 90 degrees about its
+   corner centre (radius kept) -- for all 0 < r, 2r <= w, 2r <= h, segments >= 1 *)
+Theorem C07_rounded_rect_box : forall (w h r : R) (segments : Z) pts, (0 < r)%R -> (2 * r <= w)%R -> (2 * r <= h)%R -> (1 <= segments)%Z ->
+  rounded_rect w h r segments false = Some pts ->
+  length pts = (4 * Z.to_nat (segments + 1))%nat /\ Forall (in_box 0 0 w h) pts /\
+  In (Pt2 (w - r) h)%R pts /\ In (Pt2 w r) pts /\ In (Pt2 r 0)%R pts /\ In (Pt2 0 (h - r))%R pts.
+Proof. exact rounded_rect_box. Qed.
